@@ -85,6 +85,7 @@ type Gen struct {
 	Owner       map[types.Hash]types.Address
 	NameOwner   map[string]types.Address
 	seq         int
+	Bridge      *BridgeState // bridge workload state, nil until EnableBridge (bridge_flows.go)
 }
 
 func NewGen(w *World) *Gen {
